@@ -95,7 +95,10 @@ def get_parser(model_obj):
 
 
 def get_recursive_parent_with_typename(obj, desired_parent_typename):
-    while type(obj).__name__ != desired_parent_typename and hasattr(obj, "parent"):
+    while (
+        type(obj).__name__ != desired_parent_typename
+        and getattr(obj, "parent", None) is not None
+    ):
         obj = obj.parent
     if type(obj).__name__ != desired_parent_typename:
         return None
